@@ -56,6 +56,16 @@ func verifStandIn(script string) {
 		// die by the signal with default disposition: exec a shell that kills itself
 		syscall.Exec("/bin/sh", []string{"sh", "-c", "kill -" + st[5:] + " $$; sleep 5"}, os.Environ())
 		os.Exit(99)
+	case strings.HasPrefix(st, "waitexit:"):
+		// stay alive until signalled, then end with the given exit status (a worker failing during its final harvest)
+		syscall.Exec("/bin/sh", []string{"sh", "-c",
+			"sleep 20 >/dev/null 2>&1 & trap 'echo TERM >> " + dir + "/signals; kill $!; exit " + st[9:] + "' TERM; touch " + dir + "/ready; wait"}, os.Environ())
+		os.Exit(99)
+	case strings.HasPrefix(st, "waitkill:"):
+		// stay alive until signalled, then die by another signal (e.g. killed by a stop time-out)
+		syscall.Exec("/bin/sh", []string{"sh", "-c",
+			"sleep 20 >/dev/null 2>&1 & trap 'echo TERM >> " + dir + "/signals; kill $!; kill -" + st[9:] + " $$' TERM; touch " + dir + "/ready; wait"}, os.Environ())
+		os.Exit(99)
 	case st == "wait":
 		// stay alive until signalled; record the signal
 		syscall.Exec("/bin/sh", []string{"sh", "-c",
